@@ -399,7 +399,7 @@ def render_fmt(m, a):
     return out
 
 
-@model(r'^format$')
+@model(r'^(std::fmt::|alloc::fmt::)?format$')
 def _(m, callee, args):
     return RStr(render_fmt(m, args[0]))
 
@@ -412,7 +412,7 @@ def _(m, callee, args):
     return Enum(0, [()], 'Ok')
 
 
-@model(r'^must_use::<String>$')
+@model(r'^(std::hint::|core::hint::)?must_use::<String>$')
 def _(m, callee, args):
     return args[0]
 
